@@ -176,11 +176,94 @@ CLAIMED = {
              "receive-buffer layouts of nice_agent_recv_messages are not explored.",
         technique="Lean 4 proof of copy/split kernels + differential correspondence + per-transport simulation",
         design="5/C02"),
+    "C08": dict(
+        text="PARTIAL. A field-by-field Lean 4 model of agent/pseudotcp.c (fifos, segment lists, every timer, options, state machine) is "
+             "tied to the real PseudoTcpSocket by comparing the whole private state and every emitted packet byte for byte after every "
+             "operation of generated single- and two-socket schedules (loss, duplication, delay, reordering, clock ticks, shutdown/close, "
+             "MTU changes, WritePacket failures). Theorems proved on the model: fifo write/read/round-trip exactness, every transmitted "
+             "payload is the ring content at its sequence position (S), out-of-order storage and in-order commit keep committed bytes "
+             "(first half of R), end-of-stream requires an in-sequence FIN. The two-socket statements — delivered bytes are a prefix of "
+             "written bytes in both directions (N) and EOS only after all data (E) — are NOT proved; they are decided on the real code "
+             "by the stream oracle over the generated schedules. Three genuine defects found (early EOS x2, data corruption when data "
+             "overtakes the connect message) were fixed in /repo and stay as corpus witnesses.",
+        note="Trusted: Lean kernel, hand-written PTcp model + ptcp_drv harness (includes pseudotcp.c to read private state; rings "
+             "zero-filled), translated kernels (time_diff, bound, LARGER...). Streams < 2^31 bytes.",
+        technique="Lean 4 lemmas on a full executable model + whole-state differential correspondence + prefix/EOS oracle on the real code",
+        design="5/C08"),
+    "C09": dict(
+        text="PARTIAL. Theorems on the PTcp model: MIN_RTO <= rx_rto <= MAX_RTO in every reachable state, back-off doubles up to the "
+             "ceiling, transmit gives up with an error after the retransmission limit and closing reports to the owner, while not "
+             "closed get_next_clock names a finite deadline (<= now + 4000 ms absent the 32-bit wrap). The end-to-end dichotomy "
+             "(all data readable and both closed, or an error callback) and the completion bound after healing are NOT proved: they are "
+             "decided on the real code by a healing driver (lossy/duplicating/reordering schedules up to a healing time in 0..120 s, "
+             "buffers 1 KiB..1 MiB, Nagle, ack-delay, MTU, FIN-ACK support on either side, clock origins at the 32-bit wrap). Two "
+             "genuine defects (silent hang when a timer is armed at clock value 0; assertion when WritePacket fails inside shutdown) "
+             "were fixed in /repo.",
+        note="Trusted: Lean kernel, PTcp model + ptcp_drv; liveness is a simulation claim, not a theorem.",
+        technique="Lean 4 invariants on the executable model + differential correspondence + healing-schedule oracle",
+        design="5/C09"),
+    "C10": dict(
+        text="Lean 4 theorems on the PTcp model for ALL byte strings: a packet with another conversation number (or too short / too "
+             "long) changes nothing and emits nothing, option parsing never faults and terminates, the accepted window scale is <= 14 so "
+             "the shift never faults, fifo bounds are preserved by every fifo operation, undelivered data never exceeds the receive "
+             "buffer, and the invariant Inv0 (fifo, scale and RTO bounds) is preserved by every public operation over every history "
+             "(C10_inv_preserved_partial: tiling/rlist/state pieces of the full invariant are not proved). The window property holds "
+             "per round outside FIN/RST flushes (C10_respects_window_partial); the full statement is FALSE for this code — proved by a "
+             "kernel-checked counterexample and recorded as a known finding (shutdown/close flush the whole queue). Runtime conjunct: "
+             "~12 000 hostile packets per quick run (boundary seq/ack, any flags/window/options incl. scale 0..255) in every state under "
+             "ASan/UBSan with whole-state comparison; five genuine assertion/UB defects found this way were fixed in /repo.",
+        note="Trusted: Lean kernel, PTcp model + ptcp_drv, sanitizers for the compiled C.",
+        technique="Lean 4 proof of no-op/no-fault/bounds invariants over all inputs + hostile-packet differential correspondence",
+        design="5/C10"),
+    "C17": dict(
+        text="Lean 4 theorems per stream layer, each model tied line by line to the real socket code stacked on a scripted base socket "
+             "(and a real tcp-bsd socket over a socketpair with interposed sendmsg): TURN-over-TCP (all framing modes) and the agent's "
+             "RFC 4571 reassembly deliver the same messages for EVERY segmentation of EVERY stream and never index outside their "
+             "buffers; the send side frames any number of buffers correctly and the send queue keeps frames contiguous under every "
+             "partial-write pattern; once a proxy/pseudo-SSL tunnel is up bytes pass unchanged. For SOCKS5, pseudo-SSL and HTTP the "
+             "segmentation-independence statement is FALSE on this code: proved by kernel-checked witnesses, reproduced on the real "
+             "code and recorded as five known findings, with `_partial` theorems under 'each reply arrives whole'. Exhaustive 2^(n-1) "
+             "splits (n <= 12 quick, 18 thorough) and random segmentations up to 200 KiB drive the tie. Four genuine defects were fixed.",
+        note="Trusted: Lean kernel, per-layer models + sock_drv harness (scripted base mirrors tcp-bsd over a kernel stream).",
+        technique="Lean 4 proof by refinement to the unconsumed byte list (or proved negation + partial) + exhaustive-split differential correspondence",
+        design="5/C17"),
+    "C16": dict(
+        text="PARTIAL. Lean 4 theorems on the TURN client model (DRAFT9/RFC5766 over UDP, plus the GOOGLE send encoding): a Send "
+             "indication / ChannelData produced for (peer, payload) decodes at an independent RFC 5766 reference relay to exactly that "
+             "peer and payload (IPv4/IPv6, any transaction id, any accepted length), what the relay forwards is handed up with the "
+             "same payload and peer for a general channel table, data for a peer without permission is queued FIFO and flushed "
+             "completely when the permission answer arrives or times out, and no relay byte string makes the receive path fault. "
+             "Tied to the real nice_udp_turn_socket over a scripted base with request timers on the virtual clock, 401/438 rounds, "
+             "orders of permission/channel-bind completion, hostile relay datagrams in exactly-sized buffers. Two genuine defects "
+             "were fixed; one (RFC 3489-style padding counted in the DATA length in GOOGLE/MSN mode) is a known finding.",
+        note="Trusted: Lean kernel, Turn model + Relay spec + sock_drv; MSN/OC2007 encodings, the reliable re-framing and refresh "
+             "timers are outside the model; STUN encodings rely on C04-C07.",
+        technique="Lean 4 round-trip proof against a reference relay + differential correspondence with scripted relay",
+        design="5/C16"),
+    "C12": dict(
+        text="PARTIAL (weakest fit). Lean 4 theorems cover only what a model can carry: after remove_stream no container of a "
+             "well-formed agent mentions the stream and other streams' resources are untouched, the keepalive timer does not outlive "
+             "the last stream, the keepalive and consent timers are re-armed for the whole remaining time (never longer than their "
+             "period, at least 1 ms when 1 ms remains, less than 1 ms left after a consent re-arm) — the no-spin arithmetic. Memory "
+             "safety, use-after-free, assertions and leaks of the C code CANNOT be expressed in the model: they are observed by running "
+             "generated API programs (<= 60 calls over the public API with valid and stale ids, main-loop time and peer traffic "
+             "interleaved, optional TURN server / consent freshness / reliable mode) on real agents under ASan+UBSan+LSan, inspecting the "
+             "agent's private containers after every remove_stream, counting sockets before/after and main-loop dispatches per idle second.",
+        note="Trusted: Lean kernel, Lifecycle bookkeeping model (refresh pruning is asynchronous in the code and modelled so), "
+             "sim_drv harness, sanitizers; single-threaded use only.",
+        technique="Lean 4 proof of bookkeeping/timer kernels + sanitizer-instrumented API-program exploration",
+        design="5/C12"),
 }
 
 NA_REASON = "not yet decided by the framework at this commit (model/theorems under construction); not claimed"
 
+PENDING = {"C12": "check exists (checks/C12.py) but is being triaged: it currently reports crashes/hangs on the unchanged tree that "
+                  "have not yet been classified as genuine defects or harness artefacts; not claimed until that is settled"}
+
+
 def main():
+    for k in PENDING:
+        CLAIMED.pop(k, None)
     checks = []
     for p in PROPS:
         if p in CLAIMED:
@@ -213,7 +296,7 @@ def main():
              "kind_free_text": "C line-protocol drivers linked against ASan/UBSan static libs built from /repo's working tree"},
         ],
         "checks": checks,
-        "not_applicable": [{"property_id": p, "reason": NA_REASON} for p in PROPS if p not in CLAIMED],
+        "not_applicable": [{"property_id": p, "reason": PENDING.get(p, NA_REASON)} for p in PROPS if p not in CLAIMED],
         "notes": "See DESIGN.md. KNOWN_FINDINGS.jsonl lists fixed/known defects.",
     }
     json.dump(m, open(os.path.join(ROOT, "MANIFEST.json"), "w"), indent=1)
